@@ -6,6 +6,10 @@ VAULT_TB = ("Model/Vault.lean is hand-written from x/vault/keeper/msg_server.go 
             "UpdateProtocolData), and the emergency-shutdown steps of x/esm (esm.go:267-575, keeper.go:182-268); tied on every run by delivering generated multi-user histories through the "
             "real message router (ValidateBasic + handler on a cache context) and comparing every vault, stable-mint vault, product total, "
             "counter, module/user balance and supply after every message")
+EFFECTS_TB = ("extract/effects (go/ast, no type checking): the ordered bank calls / record writes of every vault handler with their path conditions, "
+              "texts normalised (locals replaced by their defining expressions, module-name constants resolved, callees inlined); tied to Model/Vault.lean "
+              "by Props/C01Effects.lean through reviewed role tables (5 + 4 texts) and condition tables (7 + 6 texts), incl. the liquidationsV2 / esm hand-overs out of vault custody; amount expressions are not compared "
+              "(the correspondence runs do that); the order / names of record writes are pinned against a literal list only")
 VAULT_ASSUME = ["a rejected message leaves no writes (baseapp message atomicity; the harness delivers on a cache context written back only on success)",
                 "what a handler reads from other modules (ESM / breaker flags, oracle prices, accrued interest) is an input of the step, printed by the harness from the real chain state; the theorems hold for every value of these inputs",
                 "admissible product configuration (enforced at registration, x/asset/keeper/pairs_vault.go:153-165): fees in [0,1), debt floor >= 0, ceiling >= 0, positive asset decimals",
@@ -13,17 +17,27 @@ VAULT_ASSUME = ["a rejected message leaves no writes (baseapp message atomicity;
 
 PROP = dict(
     title="CDP vault custody and published totals",
-    lean_modules=["Comdex.Props.C01"],
+    lean_modules=["Comdex.Props.C01", "Comdex.Props.C01Effects"],
+    gen=["effects"],
     namespaces=["Comdex.C01"],
     required_theorems=["Comdex.C01.custody_eq", "Comdex.C01.count_eq", "Comdex.C01.totals_eq", "Comdex.C01.totals_coll_eq",
                        "Comdex.C01.totals_minted_le", "Comdex.C01.totals_after_settlement", "Comdex.C01.totals_eq_settlement_counterexample",
                        "Comdex.C01.invG_always", "Comdex.C01.inv_always", "Comdex.C01.rejected_no_change",
                        "Comdex.C01.totals_eq_gen1_settlement_example", "Comdex.C01.custody_after_esm_stable",
                        "Comdex.C01.esm_stable_counterexample", "Comdex.C01.esm_vault_example",
-                       "Comdex.C01.wind_down_return_keeps_ledger", "Comdex.C01.wind_down_return_example"],
+                       "Comdex.C01.wind_down_return_keeps_ledger", "Comdex.C01.wind_down_return_example",
+                       # effect skeleton of the eleven handlers regenerated from the Go source = the model's op lists (Props/C01Effects.lean)
+                       "Comdex.C01.vault_go_all", "Comdex.C01.create_effects", "Comdex.C01.deposit_effects", "Comdex.C01.withdraw_effects",
+                       "Comdex.C01.draw_effects", "Comdex.C01.repay_effects", "Comdex.C01.close_effects", "Comdex.C01.depositAndDraw_effects",
+                       "Comdex.C01.stableCreate_effects", "Comdex.C01.stableDeposit_effects", "Comdex.C01.stableWithdraw_effects",
+                       "Comdex.C01.interestCalc_effects", "Comdex.C01.close_runs_ops", "Comdex.C01.repay_runs_ops", "Comdex.C01.create_runs_ops",
+                       "Comdex.C01.deposit_runs_ops", "Comdex.C01.withdraw_runs_ops", "Comdex.C01.draw_runs_ops",
+                       "Comdex.C01.vault_all_classified", "Comdex.C01.vault_writes_after_bank", "Comdex.C01.vault_own_writes",
+                       "Comdex.C01.vault_table_shape", "Comdex.C01.custody_go_all", "Comdex.C01.seize_effects", "Comdex.C01.esm_effects",
+                       "Comdex.C01.sweep_cached", "Comdex.C01.esm_pins"],
     harness_tests=["TestC01"],
     monitors=["custody_eq", "count_eq", "totals_eq"],
-    trusted_base=[KERNEL_TB, HARNESS_TB, DEC_TB, VAULT_TB],
+    trusted_base=[KERNEL_TB, HARNESS_TB, DEC_TB, VAULT_TB, EFFECTS_TB],
     assumptions=VAULT_ASSUME,
     rule="each case is one generated history (2-5 users, 4 products over 2 apps, mixed asset decimals, zero/non-zero fees, price moves and "
          "deactivations, time gaps up to a year, boundary amounts at floor / ceiling / min-CR, wrong owner / app / product) delivered to the real "
